@@ -12,13 +12,13 @@ trap 'git -C /repo worktree remove --force $W >/dev/null 2>&1; rm -rf /tmp/verif
 demo=$(ls $out/demo_test.go $out/demo*_test.go $out/demo/main.go 2>/dev/null | head -1)
 res=/tmp/seed-$pid-$tag-eval.txt; : > $res
 cp "$demo" $W/$demopath
-( cd $W && go test -vet=off -count=1 -run "$demorun" ./$(dirname $demopath)/ ) > /tmp/seed-demo-clean.txt 2>&1; echo "demo on clean tree: exit $?" | tee -a $res
+( cd $W && go test ${DEMOFLAGS:-} -vet=off -count=1 -run "$demorun" ./$(dirname $demopath)/ ) > /tmp/seed-demo-clean.txt 2>&1; echo "demo on clean tree: exit $?" | tee -a $res
 rm $W/$demopath
 ( cd $W && git apply $out/patch.diff ) || { echo "PATCH DOES NOT APPLY" | tee -a $res; exit 1; }
 ( cd $W && go build ./... ) && echo "builds: yes" | tee -a $res
 ( cd $W && go test -vet=off -count=1 ./... 2>&1 | grep -v "no test files" | grep -v "^ok" ) > /tmp/seed-suite.txt; if [ -s /tmp/seed-suite.txt ]; then echo "SUITE OUTPUT:"; cat /tmp/seed-suite.txt; ( cd $W && go test -vet=off -count=1 ./... 2>&1 | grep -v "no test files" | grep -v "^ok" ) | tee -a $res; else echo "pinned suite with the change: passes" | tee -a $res; fi
 cp "$demo" $W/$demopath
-( cd $W && go test -vet=off -count=1 -run "$demorun" ./$(dirname $demopath)/ ) > /tmp/seed-demo-mut.txt 2>&1; echo "demo with the change: exit $?" | tee -a $res
+( cd $W && go test ${DEMOFLAGS:-} -vet=off -count=1 -run "$demorun" ./$(dirname $demopath)/ ) > /tmp/seed-demo-mut.txt 2>&1; echo "demo with the change: exit $?" | tee -a $res
 rm $W/$demopath
 for c in $pid "$@"; do
   VERIF_REPO=$W /verif/check $c --tier ${TIER:-quick} > /tmp/seed-check-$c.txt 2>&1; rc=$?
